@@ -454,6 +454,48 @@ def uniform_linear(ctx):
              int(np.floor(np.log10(np.max(cell)))), off), nontrivial=judged > 0)
 
 
+def large_linear(ctx):
+    """A rotated mesh of about 3e5 cells (odd counts): a linear scalar field is reproduced in
+    every interior cell, also in the last ones of a long array."""
+    rng = ctx.rng
+    n = np.array([int(rng.integers(36, 44)), int(rng.integers(36, 44)), int(rng.integers(36, 44))])
+    cell = 10.0 ** rng.uniform(-9, 3) * rng.uniform(0.7, 1.4, 3)
+    pmin = rng.uniform(-3, 3, 3) * cell * n
+    pmax = pmin + cell * n
+    mesh = df.Mesh(p1=pmin.tolist(), p2=pmax.tolist(), n=[int(k) for k in n])
+    c = (pmin + pmax) / 2
+    a = rng.normal(size=3) / (cell * n)
+    b = rng.normal() * 3
+    axes = [pmin[k] + (np.arange(n[k]) + 0.5) * cell[k] for k in range(3)]
+    X = np.stack(np.meshgrid(*axes, indexing="ij"), axis=-1)
+    vals = ((X - c) @ a + b)[..., None]
+    fs = df.Field(mesh, nvdim=1, value=vals)
+    rot = df.FieldRotator(fs)
+    spec = rand_rotation(rng)
+    explicit = [int(rng.integers(66, 74)) | 1, int(rng.integers(62, 70)) | 1, int(rng.integers(60, 66)) | 1]
+    apply(rot, spec, explicit)
+    g, Q = rot.field, spec[3]
+    q, p = back_rotated(g, Q, c)
+    inner, outer, _ = classify(p, pmin, pmax, cell)
+    got = g.array.reshape(-1)
+    info = {"part": "large", "n": n, "explicit_n": explicit, "target_cells": int(np.prod(explicit)),
+            "rotation": describe(spec)}
+    ctx.event("large_meshes")
+    if inner.any():
+        exp = (p[inner] - c) @ a + b
+        okv = np.abs(got[inner] - exp) <= 1e-9 * float(np.max(np.abs(vals)))
+        w = {}
+        if not okv.all():
+            badi = np.flatnonzero(inner)[~okv]
+            w = {"wrong_cells": int(len(badi)), "first_flat_index": int(badi[0]),
+                 "last_flat_index": int(badi[-1]), "got": got[badi[0]]}
+        ctx.check("C18.linear_scalar", bool(okv.all()), cells=int(inner.sum()), **w, **info)
+    if outer.any():
+        ctx.check("C18.outside.zero", not np.any(got[outer] != 0), cells=int(outer.sum()),
+                  field="linear scalar", **info)
+    ctx.sig(("large_linear", spec[4]), nontrivial=bool(inner.any()))
+
+
 def quarter_matrix(axis, k):
     """Exact integer matrix of k quarter turns about coordinate axis ``axis``."""
     a, b = [(1, 2), (2, 0), (0, 1)][axis]    # positive turn takes a -> b
@@ -596,6 +638,10 @@ def refusals(ctx):
 
 
 def run_case(ctx, i):
+    if ctx.thorough and i % 1200 == 323:
+        # thorough tier only: the rotator evaluates its target cell by cell in Python, one
+        # such case takes ~40 s under the monitors (8 of them in 9600 cases)
+        return large_linear(ctx)
     kind = i % 4
     if kind == 0:
         history(ctx)
